@@ -194,8 +194,23 @@ func fnKey(fn *ssa.Function) string {
 	return fn.String()
 }
 
+// nondetPrefixes: functions whose result differs between nodes executing the same block.
+var nondetPrefixes = []string{"time.Now", "time.Since", "time.Until", "math/rand.", "math/rand/v2.", "crypto/rand.", "os.Getenv", "os.LookupEnv", "os.Environ", "os.Hostname", "os.Getpid", "runtime.NumCPU", "runtime.NumGoroutine", "runtime.GOMAXPROCS", "runtime.Caller", "runtime.Stack"}
+
+func isNondetSource(key string) bool {
+	for _, p := range nondetPrefixes {
+		if key == p || (strings.HasSuffix(p, ".") && strings.HasPrefix(key, p)) {
+			return true
+		}
+	}
+	return false
+}
+
 func (e *Enc) callStatic(fr *Frame, st *State, fn *ssa.Function, binds []*Val, args []*Val, rt types.Type, hint string, pos token.Pos) *Val {
 	key := fnKey(fn)
+	if e.top != nil && e.top.contract != nil && e.top.contract.Deterministic && e.dry == 0 && isNondetSource(key) {
+		e.addObl(&Obligation{Name: e.site(fr, "nondet:"+key, pos), Kind: "deterministic", Label: e.top.contract.DetLabel, Clause: "deterministic — call of the node-local source " + key, Reach: st.reach, Goal: "false", Pos: e.posStr(pos)})
+	}
 	if c, ok := e.DB.Contracts[key]; ok && c.callable() && len(binds) == 0 {
 		return e.applyContract(fr, st, c, args, rt, hint, pos)
 	}
@@ -428,6 +443,10 @@ func (e *Enc) applyContract(fr *Frame, st *State, c *Contract, args []*Val, rt t
 		if c.Assumed {
 			e.assumedUsed[c.Key]++
 		}
+	}
+	if e.top != nil && e.top.contract != nil && e.top.contract.Deterministic && e.dry == 0 && !c.Deterministic && !c.Assumed && !c.Pure && c.funcType == "" && strings.HasSuffix(c.File, ".go") {
+		// a verified function of the repository that is not itself checked for node-local sources
+		e.addObl(&Obligation{Name: e.site(fr, "nondet:callee-not-deterministic:"+c.Key, pos), Kind: "deterministic", Label: e.top.contract.DetLabel, Clause: "deterministic — callee " + c.Key + " has a contract without a `deterministic` clause", Reach: st.reach, Goal: "false", Pos: e.posStr(pos)})
 	}
 	sig := c.Sig
 	vars := e.bindParams(c, args, sig)
